@@ -1,6 +1,6 @@
 (* C20 driver: one history per line.
    h <maxv> <tf> <misc> <nx> <nodata> <deleg> <trunc> <nev> <event>*   (raw setter arguments; `d` x 7 = Config::default())
-   event := q <name> <qcase> <class> <type> <flags rd|cd<<1|ad<<2|do<<3> <opcode> <now_ms> <delay_ms> <resp>
+   event := q <name> <qcase> <class> <type> <flags rd|cd<<1|ad<<2|own DO<<3|base OPT<<4|own OPT<<6> <opcode> <now_ms> <delay_ms> <resp>
           | s <name> <qcase> <class> <type> <flags> <opcode> <now_ms>      (a request starts: lookup)
           | f <name> <class> <type> <flags> <t_ms> <resp>                  (upstream's answer to a waiting request arrives)
           | x <n>
@@ -10,6 +10,12 @@
    `Panic` if the model panics anywhere in the history. *)
 let ni s = n_of_int (int_of_string s)
 let bit v i = (v lsr i) land 1 = 1
+
+(* request flags word: rd | cd<<1 | ad<<2 | own DO<<3 | base OPT (0 none, 1 DO clear, 2 DO set)<<4 | own OPT present<<6 *)
+let request_key name cls ty f =
+  let base = match (f lsr 4) land 3 with 0 -> None | 1 -> Some false | _ -> Some true in
+  let own = if bit f 6 then Some (bit f 3) else None in
+  key_of_request_msg (ni name) (ni cls) (ni ty) (bit f 0) (bit f 1) (bit f 2) base own
 
 let parse_rec s =
   match String.split_on_char ':' s with
@@ -41,13 +47,11 @@ let rec parse_events n l acc =
   else match l with
   | "x" :: k :: rest -> parse_events (n - 1) rest (EEvict (nat_of_int (int_of_string k)) :: acc)
   | "q" :: name :: qcase :: cls :: ty :: flags :: opcode :: now :: delay :: rest ->
-      let f = int_of_string flags in
-      let k = key_of_request (ni name) (ni cls) (ni ty) (bit f 0) (bit f 1) (bit f 2) (bit f 3) in
+      let k = request_key name cls ty (int_of_string flags) in
       let (u, rest) = parse_resp rest in
       parse_events (n - 1) rest (EQuery (k, ni opcode, ni qcase, ni now, ni delay, u) :: acc)
   | "s" :: name :: qcase :: cls :: ty :: flags :: opcode :: now :: rest ->
-      let f = int_of_string flags in
-      let k = key_of_request (ni name) (ni cls) (ni ty) (bit f 0) (bit f 1) (bit f 2) (bit f 3) in
+      let k = request_key name cls ty (int_of_string flags) in
       parse_events (n - 1) rest (EStart (k, ni opcode, ni qcase, ni now) :: acc)
   | "f" :: name :: cls :: ty :: flags :: t :: rest ->
       let f = int_of_string flags in
